@@ -160,6 +160,17 @@ func (c07) Case(c *core.Ctx) {
 	if jv.Fp(root) != before {
 		c.Violate("c07-receiver-modified", "ValuesForPath modified its receiver", det())
 	}
+	// asked again - on the same receiver and on an equal Map built separately -: same answer
+	for i, rcv := range []map[string]interface{}{root, jv.Copy(root).(jv.M)} {
+		if i == 1 && r.Intn(4) != 0 {
+			break
+		}
+		again, e := mxj.Map(rcv).ValuesForPath(path)
+		if e != nil || !jv.MultisetEqual(again, want) || (!wild && !jv.SeqEqual(again, want)) {
+			c.Violate("c07-values", "ValuesForPath returns something else when asked a second time (or on an equal Map built separately)", core.D{"map": jv.Show(root), "path": path, "expected": jv.Show(want), "second_answer": jv.Show(again), "err": fmt.Sprint(e), "on_copy": i == 1})
+			return
+		}
+	}
 	// consistency of the wrappers
 	v1, e1 := mxj.Map(root).ValueForPath(path)
 	if len(got) == 0 {
